@@ -13,6 +13,9 @@ CHECKS = {
  "C02": dict(cat="exploration", tech="runtime monitoring: reference-model monitor (independent renderer over the harness's own syntax trees) comparing every Tofu.Render of generated bundles",
    text="Seeded valid bundles from the whole command grammar are compiled and rendered by the real code; every output/error is compared with an independent reference renderer implementing the language's block scoping and call data passing. Held on the bundles and data executed.",
    note="Trusted: the reference renderer and generator in /verif/harness (ref, gen); outputs compared modulo character-reference spelling; cases the language does not pin down are dropped and counted.", ref="DESIGN.md §6 C02, §5.2"),
+ "C01": dict(cat="exploration", tech="runtime monitoring: reference-model monitor (independent expression evaluator) over systematic operator x operand-class x position cells and seeded random trees",
+   text="Every binary operator x every ordered pair of 17 operand classes, every unary, every ordered operator pair in both nestings (minimal and redundant parentheses), every function x argument classes, every literal and data-reference form, placed in 21 syntactic positions, plus seeded random typed trees: compiled and rendered by the real code and compared with a reference evaluator (value text, must-error cases, acceptance of valid source). Held on the cells and trees executed.",
+   note="Trusted: reference evaluator/printer in /verif/harness/ref (official precedence table). Out-of-domain cases (ill-typed operands, ints beyond 2^53, float text outside the dyadic zone, map order) are dropped and counted, not judged.", ref="DESIGN.md §6 C01, §5.1"),
 }
 PENDING = "check not built yet (planned with runtime monitoring, see DESIGN.md §6); not claimed"
 props = [json.loads(l)['id'] for l in open('/verif/properties.jsonl')]
